@@ -525,6 +525,51 @@ func argFor(h *model.Heap, v model.Val) any {
 	return h.Arg(v)
 }
 
+// viaCallback: now and then the tree-form write is issued from inside a callback of an iteration over the root (the
+// first invocation does it; an empty root gets it straight after). A write is a write wherever it is called from; what
+// the iteration itself visits afterwards is not judged here.
+func (p *prog) viaCallback(root *model.Node, what string) func(f func()) {
+	if p.r == nil || !p.r.Chance(1, 8) {
+		return func(f func()) { f() }
+	}
+	p.c.Count("writes_from_inside_a_callback")
+	mode := p.r.Intn(4)
+	return func(f func()) {
+		done := false
+		once := func() {
+			if !done {
+				done = true
+				f()
+			}
+		}
+		switch x := root.Real.(type) {
+		case at.List:
+			switch mode {
+			case 0:
+				x.ForEach(func(int, any) { once() })
+			case 1:
+				x.ForEachValue(func(any) { once() })
+			case 2:
+				x.Map(func(i int, v any) any { once(); return nil })
+			default:
+				x.Filter(func(any) bool { once(); return true })
+			}
+		case at.Object:
+			switch mode {
+			case 0:
+				x.ForEach(func(string, any) { once() })
+			case 1:
+				x.ForEachValue(func(any) { once() })
+			case 2:
+				x.Map(func(k string, v any) any { once(); return nil })
+			default:
+				x.MapValues(func(v any) any { once(); return nil })
+			}
+		}
+		once()
+	}
+}
+
 func c11Set(p *prog, root *model.Node, path string, v model.Val) {
 	segs, ok := model.WellFormed(root.K, path)
 	if !ok {
@@ -536,14 +581,17 @@ func c11Set(p *prog, root *model.Node, path string, v model.Val) {
 		desc = "native " + v.Ref.ToSpec().Canon()
 	}
 	var ret any
+	via := p.viaCallback(root, "SetTF")
 	pan := p.step("SetTF", fmt.Sprintf("root.SetTF(%q, %s)", path, desc), false, func() {
 		p.h.SetTF(root, segs, v)
-		switch x := root.Real.(type) {
-		case at.List:
-			ret = x.SetTF(path, arg)
-		case at.Object:
-			ret = x.SetTF(path, arg)
-		}
+		via(func() {
+			switch x := root.Real.(type) {
+			case at.List:
+				ret = x.SetTF(path, arg)
+			case at.Object:
+				ret = x.SetTF(path, arg)
+			}
+		})
 	})
 	if pan || p.failed {
 		return
@@ -579,7 +627,8 @@ func c11Unset(p *prog, root *model.Node, path string) {
 	} else {
 		p.c.Count("unsettf_unresolvable")
 	}
-	pan, msg := drive.Protect(func() { unsetTF(root.Real, path) })
+	via := p.viaCallback(root, "UnsetTF")
+	pan, msg := drive.Protect(func() { via(func() { unsetTF(root.Real, path) }) })
 	if pan && resolvable {
 		p.fail("unexpected-panic:UnsetTF", "the addressed slot is removed", "panic: "+msg)
 		return
